@@ -169,11 +169,12 @@ class C19(Prop):
                 return f"{len(curves)} curves vs model {len(mo['lines'])}"
             for k, (a, b) in enumerate(zip(curves, mo["lines"])):
                 bx, by = [float(v) for v in dec_list(b["x"])], [float(v) for v in dec_list(b["y"])]
-                if case["f"] != "mean":
+                if case["f"] in ("quantile", "median"):
                     if len(a["x"]) != len(bx) or any(not close(u, v, tol, tol) for u, v in zip(a["x"] + a["y"], bx + by)):
                         return f"curve {k}: plotted {a['x']}/{a['y']} vs model {bx}/{by}"
                 else:
-                    # scikit-learn keeps different thresholds: compare the functions at the training predictions
+                    # scikit-learn (mean) keeps different thresholds and scipy's root finder (expectile) can split a block
+                    # at a float tie: compare the functions at the training predictions
                     for p in case["cols"][k]:
                         u, v = float(np.interp(p, a["x"], a["y"])), float(np.interp(p, bx, by))
                         if not close(u, v, tol, tol):
